@@ -70,5 +70,5 @@ CONF = dict(
  'C17_lucky_ties: equal delays keep the older sample (windows up to 12); C17_ntimed_raw_wide/_corner: behaviour beyond 2^62 ns; C17_ntimed_oracle: the model meets the whole Ntimed oracle on all histories.'),
     timeout_quick=600,
     timeout_thorough=3000,
-    min_cases={'lucky.hist': 363, 'lucky.inter': 60, 'lucky.new': 16, 'lucky.reset': 120, 'lucky.wild': 90, 'ntimed.corner': 11, 'ntimed.epochsrc': 1, 'ntimed.hist': 363, 'ntimed.inter': 60, 'ntimed.reset': 120, 'ntimed.wild': 90},
+    min_cases={'lucky.hist': 365, 'lucky.inter': 60, 'lucky.new': 16, 'lucky.reset': 120, 'lucky.wild': 90, 'ntimed.corner': 11, 'ntimed.epochsrc': 1, 'ntimed.hist': 364, 'ntimed.inter': 60, 'ntimed.reset': 120, 'ntimed.wild': 90},
 )
